@@ -156,6 +156,29 @@ fn segment(d: &mut Drv, r: &mut R, dir: &std::path::Path, seg: u64) {
         d.audit();
         if d.aliased.iter().any(|n| n.starts_with('<')) { d.skipped += 1; break; }
     }
+    // a unique index that is refused late: the table gets a few hundred rows and, as its last row, a second copy of its first
+    // id, so that the build has split the index well beyond its root when the duplicate turns up - every page it took
+    // must come back (one segment in three; small pages only, so that a few hundred entries do not fit one leaf)
+    if !d.hung && page <= 8192 && d.aliased.is_empty() && seg % 3 == 1 {
+        let name = "p4";
+        let o = d.sql(0, &format!("CREATE TABLE {name} (id INT, a INT, t TEXT)"));
+        if o.is_ok() {
+            let total = r.random_range(350..600);
+            let mut id = 1;
+            while id <= total {
+                let mut vals = vec![];
+                for _ in 0..40 { if id > total { break; } vals.push(format!("({id}, {}, '{}')", r.random_range(-5..50), "w".repeat(r.random_range(0..12)))); id += 1; }
+                d.sql(0, &format!("INSERT INTO {name} (id, a, t) VALUES {}", vals.join(", ")));
+            }
+            d.audit();
+            d.sql(0, &format!("INSERT INTO {name} (id, a, t) VALUES (1, 0, 'dup')"));
+            d.sql(0, &format!("CREATE UNIQUE INDEX ix_late_{seg} ON {name} (id)"));
+            d.audit();
+            d.sql(0, &format!("DELETE FROM {name} WHERE t = 'dup'"));
+            d.sql(0, &format!("CREATE UNIQUE INDEX ix_late2_{seg} ON {name} (id)"));
+            d.audit();
+        }
+    }
     if d.aliased.is_empty() {
         d.p("vacuum");
         let o = d.eng.vacuum(); d.note("vacuum", &o);
